@@ -196,10 +196,8 @@ def member_store_checks(ctx, rule="C07.R4"):
     ctx.ob(rule, fi, ok and seen > 0, "Union._parse evaluates parsefrom in the union's own scope after the member loop (a selector may refer to the members just parsed)", key="Union selector after members", node=fi.node)
 
 
-def index_checks(ctx):
-    rule = "C07.R5"
-    sites = [("Array", "_parse"), ("Array", "_build"), ("GreedyRange", "_parse"), ("GreedyRange", "_build"),
-             ("RepeatUntil", "_parse"), ("RepeatUntil", "_build"), ("LazyArray", "_build")]
+def element_index(ctx, rule, sites):
+    """Each element of a repeater is processed with context._index set to its 0-based ordinal (an element that reads this._index sees its own position)."""
     for cls, meth in sites:
         fi, paths = method_paths(ctx, cls, meth)
         seen = 0
@@ -217,6 +215,12 @@ def index_checks(ctx):
                            detail=N.show(sets[-1]["value"]) if sets else "no _index store before the element")
         if not seen:
             ctx.ob(rule, fi, False, "%s.%s: element call inside a loop not found" % (cls, meth), key="_index before element", node=fi.node)
+
+
+def index_checks(ctx):
+    rule = "C07.R5"
+    element_index(ctx, rule, [("Array", "_parse"), ("Array", "_build"), ("GreedyRange", "_parse"), ("GreedyRange", "_build"),
+                              ("RepeatUntil", "_parse"), ("RepeatUntil", "_build"), ("LazyArray", "_build")])
     # what a repeater leaves in the scope after its loop is the same in both directions: the shape of its context writes
     # (key, inside / outside the element loop) agrees between _parse and _build, so this._index read after the repeater resolves the same way
     def shape(cls, meth):
